@@ -206,12 +206,42 @@ def c15_rings(tier, seed):
     return {"rows": rows, "hits": hits}
 
 
+def glue_run():
+    """the delegating API surface (comparison, hashing, formatting, conversions, identity, Weak raw round
+    trips, Default, Pin, Borrow/AsRef) computed on cactusref and on std::rc by the harness, side by side"""
+    try:
+        p = subprocess.run([P.HARNESS, "glue"], stdout=subprocess.PIPE, stderr=subprocess.PIPE, timeout=120)
+        out = p.stdout.decode(errors="replace")
+        rc = p.returncode
+    except subprocess.TimeoutExpired:
+        out, rc = "", "timeout"
+    diffs = [l for l in out.split("\n") if l.startswith("GLUEDIFF")]
+    m = re.search(r"GLUE lines=(\d+) differences=(\d+)", out)
+    hits = []
+    if rc != 0 or not m:
+        hits.append({"type": "oracle", "hid": "glue", "line": "crharness glue", "idx": 0,
+                     "oracle": "C07:glue-run-failed:rc=%s" % rc, "disc": "1", "d4": "0", "shrinkable": False})
+    for d in diffs[:10]:
+        hits.append({"type": "oracle", "hid": "glue", "line": d, "idx": 0,
+                     "oracle": "C07:glue-differs-from-std:" + d.split(" ", 2)[1], "disc": "1", "d4": "0",
+                     "shrinkable": False})
+    return {"lines": int(m.group(1)) if m else 0, "differences": len(diffs), "hits": hits, "sample": out.split("\n")[:0]}
+
+
 def extra_checks(pid, cfg, tier, seed):
     if pid == "C07":
         r = _cached("c07-%s-%s" % (tier, seed), lambda: c07_std(tier, seed))
-        return {"oracle_hits": r["hits"], "evaluations": r["programs"], "distinct_nontrivial": 0,
+        g = _cached("glue", glue_run)
+        return {"oracle_hits": r["hits"] + g["hits"], "evaluations": r["programs"] + g["lines"], "distinct_nontrivial": 0,
                 "evidence": {"std_comparison": {k: r[k] for k in ("programs", "lines_compared", "n_hits")},
-                             "not_modelled": "comparison/formatting/hashing, From<T>/From<Box<T>>, Default, Pin: one-line delegations to T, covered by neither model nor this run"}}
+                             "glue_vs_std": {"observations": g["lines"], "differences": g["differences"],
+                                             "what": "comparison/ordering incl. NaN, hashing, Display/Debug/Pointer formatting, From<T>, From<Box<T>>, Default, Borrow/AsRef, ptr_eq/as_ptr identity, Weak::ptr_eq/as_ptr/into_raw/from_raw, raw count functions, get_mut/make_mut/try_unwrap on plain values, Pin: not part of the Coq model, compared with std::rc directly"}}}
+    if pid == "C06":
+        g = _cached("glue", glue_run)
+        return {"oracle_hits": [dict(h, oracle=h["oracle"].replace("C07:", "C06:")) for h in g["hits"]
+                                if "ptr" in h["line"] or "raw" in h["line"] or "failed" in h["oracle"]],
+                "evaluations": g["lines"], "distinct_nontrivial": 0,
+                "evidence": {"identity_vs_std": {"observations": g["lines"], "differences": g["differences"]}}}
     if pid == "C09":
         r = _cached("c09-%s-%s" % (tier, seed), lambda: c09_layouts(tier, seed))
         return {"oracle_hits": r["hits"], "evaluations": r["histories"] * r["layouts"], "distinct_nontrivial": 0,
